@@ -146,6 +146,13 @@ def grid_job(args):
             cmpg("rotated-orientation", ori2, np.zeros_like(ori2), 64 * EPS * L[g].max(1)[:, None] * np.ones(3))
             if (np.linalg.det(V2) <= 0).any():
                 rec("rotated-determinant", int(g[int(np.argmax(np.linalg.det(V2) <= 0))]), "read-back vectors have non-positive determinant")
+            # standard orientation means a along +x and b in the upper xy half-plane (c_z > 0 then follows from det > 0):
+            # a description after a half-turn about a coordinate axis is lower-triangular too, but not standard
+            flipped = (V2[:, 0, 0] <= 0) | (V2[:, 1, 1] <= 0)
+            if flipped.any():
+                f = int(np.argmax(flipped))
+                rec("rotated-orientation-sign" + ("" if gi == 0 else "|single-shape-class-trajectory"), int(g[f]),
+                    "read-back vectors %s: a not along +x or b not in the upper xy half-plane" % V2[f].round(4).tolist())
             n_eval += 5 * len(g)
     return viol, n_eval, F * (1 + len(rots)), worst
 
@@ -293,6 +300,11 @@ def _check_cell(t, m):
         L1, A1 = _angles_of(V.astype(float))
         if np.abs(L1 - m.L).max() > 32 * EPS * m.L.max() + 1e-6 or np.abs(A1 - m.A).max() > 5e-3:
             return "vectors-values", "vectors do not have the stored lengths/angles"
+        Vf = V.astype(float)
+        tol0 = 64 * EPS * m.L.max()
+        if max(np.abs(Vf[:, 0, 1]).max(), np.abs(Vf[:, 0, 2]).max(), np.abs(Vf[:, 1, 2]).max()) > tol0 or \
+                (Vf[:, 0, 0] <= 0).any() or (Vf[:, 1, 1] <= 0).any() or (np.linalg.det(Vf) <= 0).any():
+            return "vectors-orientation", "vectors %s are not in the standard orientation (a along +x, b in the upper xy half-plane, positive volume)" % Vf[0].round(4).tolist()
         vol = t.unitcell_volumes
         tr = np.einsum("fi,fi->f", V[:, 0].astype(float), np.cross(V[:, 1].astype(float), V[:, 2].astype(float)))
         if vol is None or np.abs(vol - tr).max() > 1e-4 * np.abs(tr).max():
